@@ -304,7 +304,7 @@ func cmdRandom(path string, rng *rand.Rand, traces, steps int) {
 	enc := json.NewEncoder(f)
 	total := 0
 	for t := 0; t < traces; t++ {
-		w, err := newWorld("OK")
+		w, err := newWorld("OK", "none")
 		if err != nil {
 			out.Summary(map[string]interface{}{"infra_error": err.Error()})
 			return
